@@ -227,6 +227,14 @@ class Skeleton:
                     return Mask(a & bb, m.prov, m.bits)
                 raise Unsupported('mask op ' + op)
             if isinstance(l, int) and isinstance(r, int):
+                if op in ('<<', '>>'):
+                    from .minterp import width as _width
+                    w_, _sg = _width(e_.get('t'))
+                    w_ = max(w_, 32)
+                    if not 0 <= r < w_:
+                        # undefined in C++; x86 masks the count, so 1u << 32 is 1 and the mask built from it is empty
+                        self.errors.append('shift of a %d-bit value by %d in %s (undefined; the hardware shifts by %d)' % (w_, r, show(e_)[:50], r % w_))
+                        r = r % w_
                 M = 0xFFFFFFFFFFFFFFFF
                 fns = {'+': lambda: l + r, '-': lambda: l - r, '*': lambda: l * r, '&': lambda: l & r, '|': lambda: l | r, '<': lambda: int(l < r),
                        '<=': lambda: int(l <= r), '>': lambda: int(l > r), '>=': lambda: int(l >= r), '==': lambda: int(l == r), '!=': lambda: int(l != r),
